@@ -16,6 +16,7 @@ package message
 
 import (
 	"bytes"
+	"io"
 	"sort"
 	"time"
 
@@ -170,8 +171,50 @@ func DecodeFrame(buf []byte) (out Frame, err error) {
 
 	// We need to allocate, given that the unmarshal is now no-copy. By using 'nil' as destination
 	// we make sure that the underlying buffer is calculated based on the decoded length.
-	if buf, err = snappy.Decode(nil, buf); err == nil {
+	if buf, err = DecodeBlock(buf); err == nil {
+
+		// Every message takes at least three bytes, do not let the announced number of
+		// messages size the frame when the buffer cannot possibly hold that many: decoding
+		// would run off the end of the buffer anyway.
+		if count, n := uvarint(buf); n > 0 && count > uint64(len(buf))/3 {
+			return nil, io.EOF
+		}
+
 		err = binary.Unmarshal(buf, &out)
 	}
 	return
+}
+
+// DecodeBlock decompresses a snappy block received from a peer. A block cannot expand to
+// more than 64 bytes per 3 bytes of input, hence one that announces more is refused before
+// the announced size is allocated.
+func DecodeBlock(buf []byte) ([]byte, error) {
+	size, err := snappy.DecodedLen(buf)
+	if err != nil {
+		return nil, err
+	}
+
+	if size > 32*len(buf) {
+		return nil, snappy.ErrCorrupt
+	}
+	return snappy.Decode(nil, buf)
+}
+
+// uvarint reads a variable-size unsigned integer, n is zero or negative when it is malformed.
+func uvarint(buf []byte) (x uint64, n int) {
+	var s uint
+	for i, b := range buf {
+		if i == 10 {
+			return 0, -(i + 1)
+		}
+		if b < 0x80 {
+			if i == 9 && b > 1 {
+				return 0, -(i + 1)
+			}
+			return x | uint64(b)<<s, i + 1
+		}
+		x |= uint64(b&0x7f) << s
+		s += 7
+	}
+	return 0, 0
 }
